@@ -20,7 +20,7 @@ RULE = ('seeded models x environment variations (8 PYTHONHASHSEED values incl. r
         'compared with the baseline; non-trivial = every varied run; distinct = sha256(input, variation)')
 ASSUMPTIONS = ['MatlabWrapper objects are single-use by construction; reuse is exercised for PybindWrapper only',
                'reads of interpreter / package / system files are not inputs of the tool',
-               'wrapper reuse with xml_source and equal-named overloads is a known finding (D18) and not generated here']
+               'wrapper reuse with xml_source and equal-named overloads (D18, repaired) is part of the workload']
 MIN_EVENTS = {'quick': {'varied_runs': 150, 'audit_events': 300, 'parallel_rounds': 3},
               'thorough': {'varied_runs': 3000, 'audit_events': 5000, 'parallel_rounds': 40}}
 HASHSEEDS = ['0', '1', '2', '42', '12345', '4294967295', 'random', 'random']
